@@ -312,6 +312,8 @@ func (e *Engine) VerifyFunction(fn *ssa.Function, ct *Contract) (c *FnCtx) {
 		vars2[k] = v
 	}
 	post := &Env{c: c, cur: exit, old: fr.entry, vars: vars2, pkg: pkg}
+	c.preEnv = &Env{c: c, cur: fr.entry, old: fr.entry, vars: vars, pkg: pkg}
+	c.postEnv = post
 	// ghost updates at return
 	for _, g := range ct.GhostRet {
 		if err := c.ghostAssign(post, g); err != nil {
